@@ -102,10 +102,16 @@ pub async fn accept_loop<F>(
 {
     add_thread_local_log_tag("thread_name", "accept_loop");
     loop {
+        #[cfg(feature = "verif_hooks")]
+        crate::verif::emit("AccWait", 0, 0);
         let token = token_set.async_wait_token().await;
         if permit.is_revoked() {
+            #[cfg(feature = "verif_hooks")]
+            crate::verif::emit("AccRevokedExit", 0, 0);
             return;
         }
+        #[cfg(feature = "verif_hooks")]
+        crate::verif::emit("AccAccepting", 0, 0);
         match FutureExt::or(
             async { Some(AcceptResult::new(listener.accept().await)) },
             async {
@@ -116,17 +122,25 @@ pub async fn accept_loop<F>(
         .await
         {
             Some(AcceptResult::Ok(stream, addr)) => {
+                #[cfg(feature = "verif_hooks")]
+                crate::verif::emit("AccAccepted", u64::from(addr.port()), 0);
                 conn_handler.clone()(permit.new_sub(), token, stream, addr);
             }
             Some(AcceptResult::TooManyOpenFiles) => {
+                #[cfg(feature = "verif_hooks")]
+                crate::verif::emit("AccAcceptErr", 24, 0);
                 error("too many open files, unable to accept connection", ()).unwrap();
                 safina::timer::sleep_for(Duration::from_millis(500)).await;
             }
             Some(AcceptResult::Err(e)) => {
+                #[cfg(feature = "verif_hooks")]
+                crate::verif::emit("AccAcceptErr", 0, 0);
                 let _ = error(format!("error accepting connection: {e}"), ());
                 safina::timer::sleep_for(Duration::from_millis(500)).await;
             }
             None => {}
         }
+        #[cfg(feature = "verif_hooks")]
+        crate::verif::emit("AccIterEnd", 0, 0);
     }
 }
